@@ -8,6 +8,7 @@ CONSTANTS
   Alphabet <- DqAlphabet
   MaxLen = 5
   Prefix <- cPatPrefix
+  Suffix <- cNoPrefix
   PatternKw <- cPattern
 INIT Init
 NEXT Next
